@@ -169,6 +169,7 @@ def run_harness(scenarios, tag, shards=None, need_shim=True, timeout=3000):
         cmd = [BIN, "seq", "--in", inp, "--out", outp, "--scratch", os.path.join(wd, f"scr-{tag}-{i}"), "--shard", f"{i}/{shards}"]
         procs.append(subprocess.Popen(cmd, env=env, stdout=subprocess.PIPE, stderr=subprocess.PIPE, text=True))
     t0 = time.time()
+    hangs = []
     for p in procs:
         try:
             so, se = p.communicate(timeout=max(1, timeout - (time.time() - t0)))
@@ -176,9 +177,22 @@ def run_harness(scenarios, tag, shards=None, need_shim=True, timeout=3000):
             for q in procs:
                 q.kill()
             raise ToolError("harness timeout") from ex
+        if p.returncode == 3 and os.path.exists(outs[procs.index(p)] + ".hang"):
+            # the watchdog of the harness: a call of the code under test did not return
+            hangs.append(json.load(open(outs[procs.index(p)] + ".hang")))
+            continue
         if p.returncode != 0:
             raise ToolError(f"harness exit {p.returncode}:\n{se[-3000:]}")
+    if hangs:
+        raise HangFound(hangs, outs)
     return outs
+
+
+class HangFound(Exception):
+    def __init__(self, hangs, traces):
+        super().__init__("hang")
+        self.hangs = hangs
+        self.traces = traces
 
 
 def validate_traces(paths, module="TraceSeq", parallel=6, timeout=3000, cfg=None):
